@@ -631,7 +631,7 @@ func (sp *Spec) loadSpecFile(path, prefix, pkgPath, pkgName string, assumed bool
 					if loc == "" {
 						continue
 					}
-					if loc == "heap" || strings.Contains(loc, "::") {
+					if loc == "heap" || strings.Contains(loc, "::") || strings.HasPrefix(loc, "cells(") {
 						cur.Modifies = append(cur.Modifies, ModLoc{Src: loc, All: loc})
 						continue
 					}
@@ -670,6 +670,10 @@ func (sp *Spec) loadSpecFile(path, prefix, pkgPath, pkgName string, assumed bool
 					if strings.TrimSpace(m[3]) != "nothing" {
 						for _, loc := range splitTop(m[3], ',') {
 							if loc == "" {
+								continue
+							}
+							if strings.HasPrefix(loc, "cells(") {
+								ls.Modifies = append(ls.Modifies, ModLoc{Src: loc, All: loc})
 								continue
 							}
 							e, err := parseExpr(strings.TrimSuffix(loc, "[*]"))
